@@ -70,6 +70,24 @@ def update_sticks(ctx, rule, contract, variant="UpdateConfig", only=None):
             v = ix.inline(a.c(sym.field(last, f)))
             if not any(y == mf for y in sym.walk(v)):
                 bad = bad or "on a path on which the message supplies `%s` the Config stored last carries config.%s = %s, not the supplied value" % (f, f, sym.show(v, 5)[:160])
+        if n_asked == 0 and bad is None:
+            # no path branches on the option (`cfg.f = msg.f.unwrap_or(cfg.f)`): then every Config stored last must be
+            # computed from the message field
+            for q in a.ok_paths():
+                last = None
+                for ev_ in q.events:
+                    if getattr(ev_, "opened", False) and ev_.target is not None:
+                        continue
+                    for wr in ix.writes_of_event(ev_, a.m):
+                        if wr["item"] == item and wr["kind"] == "write" and wr["value"] is not None:
+                            last = wr["value"]
+                if last is None:
+                    continue
+                v = ix.inline(a.c(sym.field(last, f)))
+                if any(y == mf for y in sym.walk(v)):
+                    n_asked += 1
+                else:
+                    bad = bad or "no path tests whether `%s` is supplied and a stored Config carries config.%s = %s, not computed from it" % (f, f, sym.show(v, 5)[:160])
         ctx.inst(rule, "supplied-setting-stored:%s::%s:%s" % (contract, variant, f), bad is None and n_asked > 0, a.fn.where(),
                  bad or "%d success paths supply `%s`; each stores a Config last whose %s is computed from it" % (n_asked, f, f))
         n_inst += 1
